@@ -95,6 +95,8 @@ def iterate(stream, mode=1, validate=1, parsed=True, labelmsm=1, use_handler=Tru
             except sym.EngineSignal:
                 raise
             except Exception as e:  # foreign exception
+                if isinstance(e, (TypeError, AttributeError)) and sym.proxy_induced(e):
+                    raise sym.Unsupported(f"{type(e).__name__}: {str(e)[:120]}")     # the proxy, not the code, caused it
                 run.events.append(('exc', e))
                 run.end = ('foreign', e)
                 break
